@@ -173,7 +173,7 @@ const struct sim_fs_snapshot *sim_fs_snapshot(int i);
 void sim_fs_set_content(const void *data, size_t len);
 const struct bytebuf *sim_fs_content(void);
 /* policy for the next write() on the file: accept at most k bytes (k>=0; -1 = all), or fail with errno */
-void sim_fs_write_policy(long accept_at_most, int fail_errno);
+void sim_fs_write_policy(long accept_at_most, int fail_errno); /* both given: the next write is short, the one after it fails */
 void sim_fs_clear_snapshots(void);
 
 /* daemon internals reachable through its own non-static accessors */
